@@ -82,6 +82,7 @@ func (c *deployCommand) run(cmd *cobra.Command, args []string) error {
 }
 
 func (c *deployCommand) preRun(cmd *cobra.Command, args []string) error {
+	hostGiven := len(c.args.ServiceOptions.Hosts) > 0
 	c.args.ServiceOptions.Normalize()
 
 	if cmd.Flags().Changed("max-request-body") && !cmd.Flags().Changed("buffer-requests") {
@@ -97,7 +98,7 @@ func (c *deployCommand) preRun(cmd *cobra.Command, args []string) error {
 	}
 
 	if c.args.ServiceOptions.TLSEnabled {
-		if len(c.args.ServiceOptions.Hosts) == 0 {
+		if !hostGiven {
 			return fmt.Errorf("host must be set when using TLS")
 		}
 
